@@ -36,6 +36,7 @@ def run(ctx):
                    "before it is added, per sender in the distributed procedure.")
     ctx.undecided = "that mixed old/new signer sets fail and that t refreshed participants can sign (algebra)."
     ctx.floor = 16
+    refusal_inventory(ctx)
     P = ctx.prog
     wrappers(ctx, ['keys::refresh::compute_refreshing_shares', 'keys::refresh::refresh_share', 'keys::refresh::refresh_dkg_part1', 'keys::refresh::refresh_dkg_part2', 'keys::refresh::refresh_dkg_shares'])
     # ---- trusted dealer: compute_refreshing_shares
